@@ -1,21 +1,40 @@
-"""C02 — acknowledged commits survive crashes (E4: syscall trace + crash-image enumeration)."""
+"""C02 — acknowledged commits survive crashes (E4: syscall trace + crash-image enumeration, tied to Crash/Proto.v)."""
 from . import crashwl as W
 
 PARAM_SECTIONS = ["wal"]
 from . import crash as K
+from . import crashproto as P
+from . import multigen as MG
 
-MODEL_TARGETS = []
+MODEL_TARGETS = ["theories/Crash/Proto.vo"]
 TRUSTED = ["LD_PRELOAD recorder shim/shim.c (operation log under one global order) and the file-system simulator tools/vlib/crash.py "
            "(crash models exactly as the property states them: process crash keeps every completed write; power loss keeps per file "
            "the fsynced content plus a prefix of the unsynced writes; namespace operations in order)",
-           "sequential workloads: the commit order is the script order (concurrent committers are examined by the interleaving engine)"]
-ASSUMPTIONS = ["fsync persists what it is called on; directory entries are durable in operation order (as the property's crash model states)"]
+           "sequential workloads: the commit order is the script order (concurrent committers are examined by the interleaving engine)",
+           "tools/vlib/crashproto.py: abstraction of a recorded trace into the events of Crash/Proto.v (python transcription of the WAL "
+           "reader, cross-checked against the real reader on every segment file; table coverage from the real table reader; a compaction "
+           "output is given the coverage of its inputs)"]
+ASSUMPTIONS = ["fsync persists what it is called on; directory entries are durable in operation order (as the property's crash model states)",
+               "protocol theorems: a batch is one WAL record and the unit of a table's coverage; value-log files, the versioned B+tree index "
+               "file, directory fsyncs and concurrent committers/flushers are not part of the protocol model"]
 
 
 def explore(ctx):
-    r = W.explore(ctx, "C02", {"acked-lost"}, n_quick=16, n_thorough=120, big=True)
-    r["violations"] = [(d, t) for (d, t, _) in r["violations"]][:3]
-    return r
+    r = W.explore(ctx, "C02", {"acked-lost"}, n_quick=16, n_thorough=120, big=True, proto=P, proto_traces=16 if ctx["tier"] == "quick" else 80,
+                  proto_gen2=2 if ctx["tier"] == "quick" else 6)
+    r = MG.directed("C02", r)
+    # a crash-engine violation on a power-loss image that is explained by a rotated, never fsynced value-log file
+    kf = __import__("vlib.common", fromlist=["known_findings"]).known_findings("C02")
+    keep = []
+    for (d, t, info) in r["violations"]:
+        cls = P.classify_vlog(info) if "log" in info and "cut" in info else None
+        if cls and cls in kf:
+            path = __import__("vlib.common", fromlist=["write_replay"]).write_replay("C02", "known_%s_image.txt" % cls, t)
+            r["known"].append("%s [class %s; replay: %s]" % (kf[cls], cls, path))
+        else:
+            keep.append((d, t, info))
+    r["violations"] = [(d, t) for (d, t, _) in keep][:3]
+    return P.merge(r, ctx, "C02")
 
 
 def replay(ctx):
